@@ -809,6 +809,13 @@ func (g *TxGen) proposal(t *rapid.T) *governance.ProposalContent {
 			Target:    version.Versions,
 			Epoch:     g.V.Epoch + 5000 + beacon.EpochTime(rapid.IntRange(0, 3).Draw(t, "upgEpoch")),
 		}}
+		if strings.Contains(g.Profile, "gov") && rapid.IntRange(0, 2).Draw(t, "upgReachable") > 0 {
+			// ... or one that is REACHED inside the history and executed in place: the running binary is the target version and
+			// the migration handler is one that is built in and has no startup stage (two of the three change consensus
+			// state in their EndBlock stage; replicas without an upgrade manager skip upgrades altogether)
+			pc.Upgrade.Descriptor.Epoch = g.V.Epoch + beacon.EpochTime(g.W.Spec.GovVotingPeriod+1) + beacon.EpochTime(rapid.IntRange(0, 2).Draw(t, "upgSoon"))
+			pc.Upgrade.Descriptor.Handler = upgradeAPI.HandlerName(rapid.SampledFrom([]string{"consensus261", "consensus240", "empty"}).Draw(t, "upgRealHandler"))
+		}
 	case 0:
 		pc.CancelUpgrade = &governance.CancelUpgradeProposal{ProposalID: uint64(rapid.IntRange(0, 3).Draw(t, "cancelID"))}
 		// mostly aimed at an upgrade proposal that really passed (a pending upgrade exists for it)
